@@ -3,16 +3,19 @@ CONSTANTS
   Blocks = {1, 2}
   MaxPlan = 3
   MaxCrash = 1
+  ExtChoices = {FALSE, TRUE}
   SyncInRecover = TRUE
   ReleaseAfterFlush = TRUE
   FlushFsyncs = TRUE
   OpenFsyncs = TRUE
+  SyncFsDev = TRUE
   DevSbPiecemeal = FALSE
   DevErrorLostOnCrash = FALSE
 INVARIANT TypeOK
 INVARIANT Idempotent
 INVARIANT IdempotentSubsets
 INVARIANT NeverEmptyBeforeDurable
+INVARIANT CrashImagesAreDeviceProduct
 INVARIANT KeepsRequesting
 INVARIANT FlagAfterEmpty
 INVARIANT FlagAfterEmptyCrash
